@@ -1,5 +1,301 @@
-import PyXABModel.Model.Partition
+/-
+  Property C03 — bookkeeping of the partition tree.
+
+  "After any sequence of expansions (direct make_children/deepen calls), the per-depth node
+  lists contain exactly the cells reachable from the root, each once and at the list position of
+  its own depth; a cell is its parent's child and vice versa, no cell's child list contains a
+  cell created by splitting another cell, and the reported partition depth is the deepest
+  non-empty level.  Within a depth the (depth, index) labels are unique, and the children of
+  cell i carry the consecutive indices K(i-1)+1..Ki in child-list order."
+
+  Definitions: `Spec/Tree.lean`; proofs of the lemmas: `Lemmas/Tree*.lean`.
+-/
+import PyXABProofs.Lemmas.TreeOps
+
 namespace PyXAB
-/-- placeholder until the tree development is merged -/
-theorem C03_placeholder : (Part.init .binary ([] : Box Nat) ()).depth = 0 := rfl
+namespace Tree
+
+variable {α σ : Type}
+
+/-! ## 1. The initial state -/
+
+theorem init_WF (k : Kind) (domain : Box α) (s0 : σ) : WF (Part.init k domain s0) :=
+  init_WF' k domain s0
+
+/-! ## 5. What the invariant gives: the clauses of the property -/
+
+/-- (a) layer `h` lists exactly the reachable cells of depth `h`. -/
+theorem listed_iff_reachable {P : Part α σ} (W : WF P) {h : Nat} {l : List Nat}
+    (hl : P.layers[h]? = some l) (i : Nat) :
+    i ∈ l ↔ Reach P i ∧ ∃ nd, P.nodes[i]? = some nd ∧ nd.depth = h :=
+  W.listed_iff_reachable hl i
+
+/-- (a) the reachable ids are exactly the ids of the arena (every created cell). -/
+theorem reachable_iff_valid {P : Part α σ} (W : WF P) (i : Nat) :
+    Reach P i ↔ i < P.nodes.length :=
+  W.reach_iff_valid i
+
+/-- (a) each cell is listed once over all per-depth lists. -/
+theorem layers_nodup {P : Part α σ} (W : WF P) : P.layers.flatten.Nodup :=
+  W.layers_nodup
+
+/-- (a) closed form: layer `h` is the list of ids of depth `h` in creation order. -/
+theorem layers_eq_filter {P : Part α σ} (W : WF P) {h : Nat} {l : List Nat}
+    (hl : P.layers[h]? = some l) :
+    l = (List.range P.nodes.length).filter (fun i => (P.nodes[i]?.map (·.depth)) == some h) :=
+  W.layers_eq_filter hl
+
+/-- (b) `c` is in the child list of `p` iff the parent pointer of `c` is `p`. -/
+theorem child_iff_parent {P : Part α σ} (W : WF P) {p c : Nat} {pn cn : Node α σ}
+    (hp : P.nodes[p]? = some pn) (hc : P.nodes[c]? = some cn) :
+    (∃ cs, pn.children = some cs ∧ c ∈ cs) ↔ cn.parent = some p :=
+  W.child_iff_parent hp hc
+
+/-- (b) child lists of distinct cells are disjoint. -/
+theorem children_disjoint {P : Part α σ} (W : WF P) {p q : Nat} {pn qn : Node α σ}
+    {cs cs' : List Nat} (hp : P.nodes[p]? = some pn) (hq : P.nodes[q]? = some qn)
+    (hcs : pn.children = some cs) (hcs' : qn.children = some cs') (hpq : p ≠ q) :
+    ∀ c, c ∈ cs → c ∉ cs' :=
+  W.children_disjoint hp hq hcs hcs' hpq
+
+/-- (c) the reported depth is the deepest non-empty level. -/
+theorem depth_is_deepest {P : Part α σ} (W : WF P) :
+    P.layers.length = P.depth + 1 ∧ ∀ l ∈ P.layers, l ≠ [] :=
+  W.depth_is_deepest
+
+/-- (d) within a depth the labels are unique. -/
+theorem label_injective {P : Part α σ} (W : WF P) {i j : Nat} {ni nj : Node α σ}
+    (hi : P.nodes[i]? = some ni) (hj : P.nodes[j]? = some nj)
+    (hd : ni.depth = nj.depth) (hx : ni.index = nj.index) : i = j :=
+  W.label_injective i j ni nj hi hj hd hx
+
+/-- (e) the children of the cell with index `i` carry `K(i-1)+1 .. Ki` in child-list order,
+where `K = cs.length` is the arity of the partition class. -/
+theorem children_indices {P : Part α σ} (W : WF P) {p : Nat} {pn : Node α σ} {cs : List Nat}
+    (hp : P.nodes[p]? = some pn) (hcs : pn.children = some cs) :
+    cs.length = K P ∧ 1 ≤ cs.length ∧ 1 ≤ pn.index ∧
+    ∀ j c, cs[j]? = some c → ∃ cn, P.nodes[c]? = some cn ∧
+      cn.index = cs.length * (pn.index - 1) + j + 1 :=
+  W.children_indices hp hcs
+
+/-- All clauses at once. -/
+theorem clauses_of_WF {P : Part α σ} (W : WF P) : Clauses P where
+  listed := fun _ _ hl i => W.listed_iff_reachable hl i
+  reach_valid := W.reach_iff_valid
+  once := W.layers_nodup
+  child_parent := fun _ _ _ _ hp hc => W.child_iff_parent hp hc
+  disjoint := fun _ _ _ _ _ _ hp hq h1 h2 hpq => W.children_disjoint hp hq h1 h2 hpq
+  depth_deepest := W.depth_is_deepest
+  label_inj := W.label_injective
+  child_idx := fun _ _ _ hp hcs => W.children_indices hp hcs
+
+/-- Under `WF` every node of the deepest level is a leaf (so `deepen` needs no such
+hypothesis, and "is at the deepest level" is `depth = P.depth`). -/
+theorem deepest_are_leaves {P : Part α σ} (W : WF P) {i : Nat} (hi : i ∈ lastLayer P) :
+    P.isLeaf i = true :=
+  W.isLeaf_of_mem_lastLayer hi
+
+theorem newlayer_flag_eq {P : Part α σ} (W : WF P) {p : Nat} {nd : Node α σ}
+    (hp : P.nodes[p]? = some nd) :
+    decide (nd.depth ≥ P.depth) = decide (nd.depth = P.depth) := by
+  have := W.depth_le p nd hp
+  by_cases h : nd.depth = P.depth
+  · simp [h]
+  · have : ¬ nd.depth ≥ P.depth := by omega
+    simp [h, this]
+
+section ops
+variable [Add α] [Sub α] [Mul α] [Div α] [OfNat α 2] [NatCast α]
+
+/-! ## 2. `make_children` on a leaf with the correct `newlayer` flag -/
+
+/-- Never raises; the invariant is kept. -/
+theorem makeChildren_WF {P : Part α σ} (W : WF P) (s0 : σ) {p h : Nat} {nd : Node α σ}
+    {d : Draw α} {newlayer : Bool}
+    (hp : P.nodes[p]? = some nd) (hleaf : P.isLeaf p = true) (hh : nd.depth = h)
+    (hfl : newlayer = decide (h ≥ P.depth)) (hd : DrawOKLen P.kind (dimn P) d) :
+    ∃ P', P.makeChildren s0 p newlayer d = .ok P' ∧ WF P' := by
+  obtain ⟨nd', h1, h2⟩ := isLeaf_iff.1 hleaf
+  obtain rfl := getElem?_inj hp h1
+  subst hh
+  obtain ⟨P', m, W', _⟩ := makeChildren_WF_step W s0 hp h2 hfl hd
+  exact ⟨P', m, W'⟩
+
+/-- Frame: old nodes are unchanged except `children` of `p`; exactly `K` new nodes are appended,
+all leaves with payload `s0`, depth `h + 1`, parent `p`, boxes of the same dimension and the
+consecutive indices; kind and dimension are unchanged. -/
+theorem makeChildren_frame {P : Part α σ} (W : WF P) (s0 : σ) {p h : Nat} {nd : Node α σ}
+    {d : Draw α} {newlayer : Bool}
+    (hp : P.nodes[p]? = some nd) (hleaf : P.isLeaf p = true) (hh : nd.depth = h)
+    (hfl : newlayer = decide (h ≥ P.depth)) (hd : DrawOKLen P.kind (dimn P) d) :
+    ∃ P', P.makeChildren s0 p newlayer d = .ok P' ∧
+      P'.kind = P.kind ∧ dimn P' = dimn P ∧
+      P'.nodes.length = P.nodes.length + K P ∧
+      (∀ i, i ≠ p → i < P.nodes.length → P'.nodes[i]? = P.nodes[i]?) ∧
+      P'.nodes[p]? = some { nd with children := some (List.range' P.nodes.length (K P)) } ∧
+      (∀ j, j < K P → ∃ cn, P'.nodes[P.nodes.length + j]? = some cn ∧
+        cn.depth = h + 1 ∧ cn.index = K P * (nd.index - 1) + j + 1 ∧ cn.parent = some p ∧
+        cn.children = none ∧ cn.box.length = dimn P ∧ cn.st = s0) ∧
+      P'.depth = (if h = P.depth then P.depth + 1 else P.depth) := by
+  obtain ⟨nd', h1, h2⟩ := isLeaf_iff.1 hleaf
+  obtain rfl := getElem?_inj hp h1
+  subst hh
+  obtain ⟨P', m, _, S⟩ := makeChildren_WF_step W s0 hp h2 hfl hd
+  refine ⟨P', m, S.kind_eq, S.dimn_eq W hp, S.len, S.old, S.atp, S.new, ?_⟩
+  rcases S.layers with ⟨e1, _, e3⟩ | ⟨e1, _, e3⟩
+  · simp [e1, e3]
+  · have : nd.depth ≠ P.depth := by omega
+    simp [this, e3]
+
+/-! ## 3. `deepen` -/
+
+/-- `deepen()` never raises under `WF`, given one well-formed draw per node of the deepest
+level; it keeps the invariant and increases the depth by exactly one.  (No "deepest nodes are
+leaves" hypothesis: `deepest_are_leaves`.) -/
+theorem deepen_WF {P : Part α σ} (W : WF P) (s0 : σ) (ds : List (Draw α))
+    (hlen : (lastLayer P).length ≤ ds.length) (hok : ∀ d ∈ ds, DrawOKLen P.kind (dimn P) d) :
+    ∃ P' ds', P.deepen s0 ds = .ok (P', ds') ∧ WF P' ∧ P'.depth = P.depth + 1 ∧
+      ds' = ds.drop (lastLayer P).length ∧ P'.kind = P.kind ∧ dimn P' = dimn P := by
+  obtain ⟨P', h1, h2, h3, h4, h5⟩ := deepen_WF' W s0 ds hlen hok
+  exact ⟨P', _, h1, h2, h3, rfl, h4, h5⟩
+
+/-! ## 4. Every legal interleaving -/
+
+/-- From any `WF` state, a legal sequence of operations never raises and ends `WF`. -/
+theorem ops_WF_from {P : Part α σ} (W : WF P) (s0 : σ) (ops : List (POp α))
+    (hL : Legal s0 P ops) :
+    ∃ P', run s0 P ops = .ok P' ∧ WF P' ∧ P'.kind = P.kind ∧ dimn P' = dimn P :=
+  run_WF s0 ops P W hL
+
+/-- Every legal sequence of `make_children` / `deepen` calls from the initial partition
+succeeds and ends in a `WF` state. -/
+theorem ops_WF (k : Kind) (domain : Box α) (s0 : σ) (ops : List (POp α))
+    (hL : Legal s0 (Part.init k domain s0) ops) :
+    ∃ P', run s0 (Part.init k domain s0) ops = .ok P' ∧ WF P' := by
+  obtain ⟨P', h1, h2, _⟩ := run_WF s0 ops _ (init_WF k domain s0) hL
+  exact ⟨P', h1, h2⟩
+
+/-- **C03**: after every legal interleaving all clauses of the property hold. -/
+theorem C03 (k : Kind) (domain : Box α) (s0 : σ) (ops : List (POp α))
+    (hL : Legal s0 (Part.init k domain s0) ops) :
+    ∃ P', run s0 (Part.init k domain s0) ops = .ok P' ∧ Clauses P' := by
+  obtain ⟨P', h1, h2⟩ := ops_WF k domain s0 ops hL
+  exact ⟨P', h1, clauses_of_WF h2⟩
+
+end ops
+
+/-! ## 7. Non-vacuity: concrete legal runs (α := Nat, σ := Unit) -/
+
+section examples
+
+/-- the square `[0,8] × [0,8]` -/
+def dom2 : Box Nat := [⟨0, 8⟩, ⟨0, 8⟩]
+def dr (dim : Nat) : Draw Nat := ⟨dim, []⟩
+
+/-- root, then node 1 (deepest level → new layer), then node 2 (one level above the deepest →
+filed in the existing layer), then `deepen` over the four cells of depth 2. -/
+def opsBin : List (POp Nat) :=
+  [.mk 0 (dr 0), .mk 1 (dr 1), .mk 2 (dr 1), .deepen [dr 0, dr 1, dr 0, dr 1, dr 0]]
+
+example : Legal () (Part.init .binary dom2 ()) opsBin := by decide
+
+example : ∃ P', run () (Part.init .binary dom2 ()) opsBin = .ok P' ∧ WF P' :=
+  ops_WF _ _ _ _ (by decide)
+
+/-- the final state of that run: 15 cells, 4 levels. -/
+example : (getOk (run () (Part.init .binary dom2 ()) opsBin)).layers =
+    [[0], [1, 2], [3, 4, 5, 6], [7, 8, 9, 10, 11, 12, 13, 14]] := by decide
+
+example : (getOk (run () (Part.init .binary dom2 ()) opsBin)).depth = 3 := by decide
+
+/-- a ternary run with supplied random split points -/
+def opsK : List (POp Nat) :=
+  [.mk 0 ⟨0, [2, 5]⟩, .mk 3 ⟨1, [1, 7]⟩, .mk 1 ⟨1, [3, 4]⟩, .deepen [⟨0, [1, 2]⟩, ⟨0, [3, 4]⟩,
+    ⟨1, [5, 6]⟩, ⟨1, [5, 6]⟩, ⟨1, [5, 6]⟩, ⟨1, [5, 6]⟩]]
+
+example : Legal () (Part.init (.randKary 3) dom2 ()) opsK := by decide
+
+example : (getOk (run () (Part.init (.randKary 3) dom2 ()) opsK)).layers =
+    [[0], [1, 2, 3], [4, 5, 6, 7, 8, 9], (List.range' 10 18)] := by decide
+
+/-- `dimBinary`: every expansion makes `2^2 = 4` children. -/
+example : Legal () (Part.init .dimBinary dom2 ())
+    [.mk 0 (dr 0), .mk 2 (dr 0), .deepen [dr 0, dr 0, dr 0, dr 0]] := by decide
+
+/-- hypotheses of `makeChildren_WF` are satisfiable on a non-trivial state: after expanding the
+root and node 1, node 2 is a leaf at depth 1 < 2 = depth. -/
+def Pbin2 : Part Nat Unit :=
+  getOk (run () (Part.init .binary dom2 ()) [.mk 0 (dr 0), .mk 1 (dr 1)])
+
+example : WF Pbin2 := by
+  obtain ⟨P', h1, h2, _⟩ := ops_WF_from (init_WF .binary dom2 ()) ()
+    [.mk 0 (dr 0), .mk 1 (dr 1)] (by decide)
+  have : Pbin2 = P' := by simp only [Pbin2, h1, getOk]
+  exact this ▸ h2
+
+example : Pbin2.isLeaf 2 = true ∧ (∃ nd, Pbin2.nodes[2]? = some nd ∧ nd.depth = 1) ∧
+    Pbin2.depth = 2 ∧ DrawOKLen Pbin2.kind (dimn Pbin2) (dr 1) ∧
+    (lastLayer Pbin2).length ≤ 2 := by decide
+
+/-! ## 6. Misuse: what goes wrong outside the legal discipline -/
+
+/-- the state after expanding the root once -/
+def Pbin1 : Part Nat Unit :=
+  getOk ((Part.init .binary dom2 ()).makeChildren () 0 true (dr 0))
+
+/-- **Misuse 1: expanding a non-leaf.**  The root (already expanded) is split again: the call
+succeeds, the root's child list is overwritten by `[3, 4]`, and the old children 1 and 2 stay
+in `node_list[1]` although nothing points to them any more. -/
+def Pbad1 : Part Nat Unit := getOk (Pbin1.makeChildren () 0 false (dr 1))
+
+example : Pbin1.isLeaf 0 = false := by decide
+example : (Pbin1.makeChildren () 0 false (dr 1)).isOk = true := by decide
+example : Pbad1.layers = [[0], [1, 2, 3, 4]] := by decide
+
+/-- clause (a) fails: cell 1 is listed at depth 1 but is not reachable from the root. -/
+theorem misuse_nonleaf_unreachable : 1 ∈ Pbad1.layers[1]?.getD [] ∧ ¬ Reach Pbad1 1 :=
+  ⟨by decide, not_reach_of_not_child (by decide) (by decide)⟩
+
+/-- clause (b) fails: cell 1 still names the root as its parent but is not its child. -/
+theorem misuse_nonleaf_parent :
+    (Pbad1.nodes[1]?.bind (·.parent)) = some 0 ∧
+    (Pbad1.nodes[0]?.bind (·.children)) = some [3, 4] := by decide
+
+/-- clause (d) fails: two cells of depth 1 carry the label `(1, 1)`. -/
+theorem misuse_nonleaf_labels :
+    (Pbad1.nodes[1]?.map fun n => (n.depth, n.index)) = some (1, 1) ∧
+    (Pbad1.nodes[3]?.map fun n => (n.depth, n.index)) = some (1, 1) := by decide
+
+theorem misuse_nonleaf_not_WF : ¬ WF Pbad1 := fun W =>
+  misuse_nonleaf_unreachable.2 ((W.reach_iff_valid 1).2 (by decide))
+
+/-- **Misuse 2: `newlayer = True` for a cell that is not at the deepest level.**  In `Pbin2`
+(depth 2) cell 2 has depth 1; splitting it with `newlayer = True` files its children (depth 2)
+in a new list `node_list[3]` and reports depth 3. -/
+def Pbad2 : Part Nat Unit := getOk (Pbin2.makeChildren () 2 true (dr 0))
+
+example : (Pbin2.makeChildren () 2 true (dr 0)).isOk = true := by decide
+
+/-- clause (a)/(c) fail: cell 5 has depth 2 but is listed at position 3, and the reported depth
+is 3 although no cell has depth 3. -/
+theorem misuse_flag_true :
+    Pbad2.layers = [[0], [1, 2], [3, 4], [5, 6]] ∧ Pbad2.depth = 3 ∧
+    (Pbad2.nodes[5]?.map (·.depth)) = some 2 ∧
+    Pbad2.nodes.all (fun n => n.depth ≤ 2) = true := by decide
+
+theorem misuse_flag_true_not_WF : ¬ WF Pbad2 := fun W => by
+  obtain ⟨nd, h1, h2⟩ := ((W.layers_mem 3 [5, 6] (by decide)).2.2 5).1 (by decide)
+  have : (Pbad2.nodes[5]?.map (·.depth)) = some 2 := by decide
+  rw [h1] at this
+  simp at this
+  omega
+
+/-- **Misuse 3: `newlayer = False` for a cell at the deepest level** raises `IndexError`
+(`self.node_list[parent.depth + 1]` does not exist yet). -/
+theorem misuse_flag_false :
+    (Part.init .binary dom2 ()).makeChildren () 0 false (dr 0) = .error .indexError := rfl
+
+end examples
+
+end Tree
 end PyXAB
